@@ -194,7 +194,7 @@ func headerFor(n int) []byte { return make([]byte, n) }
 
 // buildCarrier wraps the finite stream st for configuration c. sim is the
 // simulated device over the same stream (used by the bufio carrier).
-func buildCarrier(c *RunConfig, st *Stream, sim *SimSource) (*carrier, error) {
+func buildCarrier(c *RunConfig, st *Stream, sim *SimSource, prefix []byte) (*carrier, error) {
 	simConsumed := func() int64 {
 		sim.mu.Lock()
 		defer sim.mu.Unlock()
@@ -214,6 +214,18 @@ func buildCarrier(c *RunConfig, st *Stream, sim *SimSource) (*carrier, error) {
 		return nil, nil
 	}
 	off := c.CarrierOffset
+	// the bytes the carrier holds: what earlier calls on the same object will
+	// consume first (prefix), then the stream - cut short where an end-of-data
+	// fault says the source ends (a truncated file, a short in-memory buffer)
+	data := st.data
+	if k := c.Fault.Kind; (k == "eof" || k == "ueof" || k == "partialeof") && c.Fault.At < int64(len(data)) {
+		data = data[:c.Fault.At]
+	}
+	if len(prefix) > 0 {
+		data = append(append([]byte(nil), prefix...), data...)
+	}
+	plen := int64(len(prefix))
+	st = &Stream{data: data}
 	switch c.Carrier {
 	case "bytes":
 		b := append(headerFor(off), st.data...)
@@ -223,13 +235,13 @@ func buildCarrier(c *RunConfig, st *Stream, sim *SimSource) (*carrier, error) {
 				return nil, err
 			}
 		}
-		return &carrier{src: lb, consumed: func() int64 { return lb.Size() - int64(lb.Len()) - int64(off) }, cleanup: func() {}}, nil
+		return &carrier{src: lb, consumed: func() int64 { return lb.Size() - int64(lb.Len()) - int64(off) - plen }, cleanup: func() {}}, nil
 	case "writerto":
 		cw := &chunkedWriterTo{data: st.data, chunk: []int{6000, 1000, 4097, 125001}[off%4]}
-		return &carrier{src: cw, consumed: func() int64 { cw.mu.Lock(); defer cw.mu.Unlock(); return int64(cw.pos) }, cleanup: func() {}}, nil
+		return &carrier{src: cw, consumed: func() int64 { cw.mu.Lock(); defer cw.mu.Unlock(); return int64(cw.pos) - plen }, cleanup: func() {}}, nil
 	case "fifo":
 		ff := &fifoSource{data: st.data, cap: 4096}
-		return &carrier{src: ff, consumed: func() int64 { ff.mu.Lock(); defer ff.mu.Unlock(); return int64(ff.pos) }, cleanup: func() {}}, nil
+		return &carrier{src: ff, consumed: func() int64 { ff.mu.Lock(); defer ff.mu.Unlock(); return int64(ff.pos) - plen }, cleanup: func() {}}, nil
 	case "bufio":
 		br := bufio.NewReaderSize(sim, []int{4096, 16, 64, 1024, 65536, 4096}[off%6])
 		return &carrier{src: br, consumed: func() int64 {
@@ -259,7 +271,7 @@ func buildCarrier(c *RunConfig, st *Stream, sim *SimSource) (*carrier, error) {
 			if err != nil {
 				return -1
 			}
-			return p - int64(off)
+			return p - int64(off) - plen
 		}, cleanup: func() { f.Close(); os.Remove(f.Name()) }}, nil
 	case "pipe":
 		// the read end of an operating-system pipe: an *os.File whose Stat
